@@ -178,10 +178,19 @@ var (
 	// the labels cover the ends of the alphabet (a, z), a digit and a hyphen: case-insensitive
 	// comparison must hold for every letter and leave the other characters alone
 	tlds    = []string{"com", "org", "biz"}
-	slds    = []string{"a", "b", "test1", "zone-9"}
-	subs    = []string{"www", "api", "m", "vip", "x", "quiz", "az"}
+	// ... and raw UTF-8 labels (an IDN written without punycode; bfe does not validate Host bytes) in pairs
+	// that differ only in one multi-byte character
+	slds    = []string{"a", "b", "test1", "zone-9", "例", "测"}
+	subs    = []string{"www", "api", "m", "vip", "x", "quiz", "az", "müller", "möller"}
 	ports   = []string{":80", ":8080", ":443", ":1"}
 	vipPool = []string{"10.0.0.1", "10.0.0.2", "192.168.7.9", "111.111.111.111", "2001:db8::1", "2001:db8::2", "fe80::1"}
+	// other valid spellings of the pool addresses (not what net.IP.String() prints)
+	vipSpelling = map[string][]string{
+		"10.0.0.1":    {"::ffff:10.0.0.1"},
+		"2001:db8::1": {"2001:DB8:0:0::1", "2001:0db8:0000:0000:0000:0000:0000:0001"},
+		"2001:db8::2": {"2001:DB8::2", "2001:db8:0:0:0:0:0:2"},
+		"fe80::1":     {"FE80::1", "fe80:0::1"},
+	}
 )
 
 // genHost draws a host name with `depth` labels (depth>=1) out of the small pools.
@@ -216,6 +225,16 @@ func maybeFlip(rt *rapid.T, s string, label string) string {
 		return flipCase(s, rapid.Uint64().Draw(rt, label+"-casemask"))
 	}
 	return s
+}
+
+// spellVip returns the pool address or one of its other spellings.
+func spellVip(rt *rapid.T, ip string) string {
+	if alts := vipSpelling[ip]; len(alts) > 0 {
+		if k := rapid.IntRange(0, 2*len(alts)).Draw(rt, "vipspelling"); k >= 1 && k <= len(alts) {
+			return alts[k-1]
+		}
+	}
+	return ip
 }
 
 func pick[T any](rt *rapid.T, xs []T, label string) T {
